@@ -164,7 +164,11 @@ CLAIMS = {
          "MultiSubscription/ZipSubscription and their _threads forms, and is_closed() sampled after every label on 12 timed operators, judged by "
          "the extracted predicates alg_ok / closed_sound_ok and compared with the model. PARTIAL: ref-count and finalizer subscriptions are "
          "decided under C11 / C15. A subscribing task on a pool thread while its handle is unsubscribed from another thread: nothing is "
-         "delivered once unsubscribe() has returned.", "DESIGN.md section 5 C17"),
+         "delivered once unsubscribe() has returned; unsubscribe() against an item that another thread is handing to a slow scheduler "
+         "(debounce, delay_threads, throttle_time, observe_on_threads with real timers). Tie by TRANSLATION (Props/C17src.v, PARTIAL): "
+         "MultiSubscription parsed from /repo/src on every run (T5) and evaluated in Coq, its iterator closures run element by element, is "
+         "the composite machine for composites of up to three members (C17_source_composite_partial); of the machine: a late addition is "
+         "unsubscribed at once, an unsubscribed composite says closed.", "DESIGN.md section 5 C17 and 11.11"),
  "C01": ("Theorems: C01_pipeline_grammar (for every pipeline tree of any depth built from subjects - the same one possibly several times - cold "
          "sources, chains of single-input operators and two-input operators, and every sequence of calls on the subjects, calls after a terminal "
          "and repeated terminals included: the trace reaching the subscriber is items, at most one terminal, nothing after), with the "
